@@ -70,6 +70,9 @@ fn covering(carriers: &BTreeSet<String>) -> Vec<String> {
         b.push(format!("{el}PRODUCCION, EL_INSITU, 3, 1\nCONSUMO, NEPB, ELECTRICIDAD, 1, 0\n"));
         b.push(format!("{el}PRODUCCION, EL_INSITU, 3, 1\nCONSUMO, NEPB, ELECTRICIDAD, 9, 9\n"));
         b.push("PRODUCCION, EL_INSITU, 3, 1\n".to_string());
+        // a declared source that produces nothing next to one that exports
+        b.push(format!("{el}PRODUCCION, EL_INSITU, 3, 9\n2, PRODUCCION, EL_COGEN, 0, 0\n2, CONSUMO, COGEN, {}, 0, 0\n", thermal.first().map(|s| s.as_str()).unwrap_or("ELECTRICIDAD")));
+        b.push(format!("{el}PRODUCCION, EL_INSITU, 0, 0\n"));
         for f in &thermal {
             let chp = format!("PRODUCCION, EL_COGEN, 3, 1\nCONSUMO, COGEN, {f}, 6, 2\n");
             b.push(format!("{el}{chp}"));
@@ -193,6 +196,10 @@ fn check_prepared(src_lines: &[(Key, [f64; 3])], prepared: &Factors, u1: bool, u
 
 impl StateCheck for C07 {
     fn check(&self, text: &str, _l: &[Line], out: &mut Out) {
+        if let Some(p) = text.lines().find_map(|l| l.strip_prefix("#SEQ ")) {
+            sequence(p.trim().parse().unwrap_or(0), out);
+            return;
+        }
         let loc = text.lines().find_map(|l| l.strip_prefix("#LOC ")).map(|s| s.trim().to_string());
         let src_lines = match &loc {
             Some(l) => cte::CTE_LOCWF_RITE2014.get(l.as_str()).map(|f| f.wdata.iter().map(|w| ((format!("{}", w.carrier), format!("{}", w.source), format!("{}", w.dest), format!("{}", w.step)), [w.ren as f64, w.nren as f64, w.co2 as f64])).collect()).unwrap_or_default(),
@@ -280,8 +287,75 @@ fn menu() -> Vec<Letter> {
         .collect()
 }
 
+/// Child process: the user-option combinations are applied, for every location and for a user file, in the
+/// `perm`-th order as the FIRST library calls of a fresh process (nothing has been prepared before), so that
+/// anything remembered between calls shows. Prints one line per violation.
+pub fn seq_child() -> i32 {
+    let perm_idx: usize = std::env::var("VERIF_C07_PERM").ok().and_then(|s| s.parse().ok()).unwrap_or(0);
+    let combos = [(false, false), (true, false), (false, true), (true, true)];
+    let perm = &crate::cmp::permutations(4)[perm_idx % 24];
+    let mut out = Out::default();
+    let file = "ELECTRICIDAD, RED, SUMINISTRO, A, 0.5, 2.0, 0.42\nRED1, RED, SUMINISTRO, A, 0.3, 0.9, 0.1\nGASNATURAL, RED, SUMINISTRO, A, 0.0, 1.1, 0.22\n";
+    for loc in subj::LOCS.iter().map(|l| Some(*l)).chain([None]) {
+        let src_lines: Vec<(Key, [f64; 3])> = match loc {
+            Some(l) => cte::CTE_LOCWF_RITE2014.get(l).map(|f| f.wdata.iter().map(|w| ((format!("{}", w.carrier), format!("{}", w.source), format!("{}", w.dest), format!("{}", w.step)), [w.ren as f64, w.nren as f64, w.co2 as f64])).collect()).unwrap_or_default(),
+            None => read_file(file),
+        };
+        for &i in perm {
+            let (u1, u2) = combos[i];
+            let user = UserWF { red1: if u1 { Some(RenNrenCo2::from(USER1)) } else { None }, red2: if u2 { Some(RenNrenCo2::from(USER2)) } else { None } };
+            let cfg = format!("sequence {perm:?} call user_red1={u1} user_red2={u2} {}", loc.map(|l| format!("loc={l}")).unwrap_or_else(|| "user file".into()));
+            let r = match loc {
+                Some(l) => cte::wfactors_from_loc(l, &cte::CTE_LOCWF_RITE2014, user, cte::CTE_USERWF),
+                None => cte::wfactors_from_str(file, user, cte::CTE_USERWF),
+            };
+            match r {
+                Ok(f) => check_prepared(&src_lines, &f, u1, u2, &cfg, &mut out),
+                Err(e) => out.viol("usable_set_accepted", &[], &cfg, format!("{e}"), "Ok"),
+            }
+        }
+    }
+    for v in &out.viols {
+        println!("SEQVIOL\t{}\t{}\t{}\t{}", v.clause, v.config.replace(['\t', '\n'], " "), v.observed.replace(['\t', '\n'], " "), v.expected.replace(['\t', '\n'], " "));
+    }
+    println!("SEQDONE\t{}", out.compared);
+    0
+}
+
+/// one order of the four user-option combinations, in a fresh process
+fn sequence(p: usize, out: &mut Out) {
+    let exe = std::env::current_exe().expect("current exe");
+    let r = std::process::Command::new(&exe).arg("C07SEQ").env("VERIF_C07_PERM", p.to_string()).output();
+    out.evals += 1;
+    out.nontrivial = true;
+    match r {
+        Ok(o) => {
+            let so = String::from_utf8_lossy(&o.stdout);
+            let mut done = false;
+            for l in so.lines() {
+                let f: Vec<&str> = l.split('\t').collect();
+                if f[0] == "SEQVIOL" && f.len() >= 5 {
+                    out.viol(&format!("sequence:{}", f[1]), &["call_sequence"], f[2], f[3], f[4]);
+                }
+                if f[0] == "SEQDONE" {
+                    done = true;
+                    out.compared += f.get(1).and_then(|x| x.parse::<u64>().ok()).unwrap_or(0);
+                }
+            }
+            if !done {
+                out.viol("sequence:child_failed", &["call_sequence"], format!("permutation {p}"), format!("child exit {:?}: {}", o.status.code(), String::from_utf8_lossy(&o.stderr).chars().take(200).collect::<String>()), "SEQDONE");
+            }
+        }
+        Err(e) => out.viol("sequence:child_failed", &["call_sequence"], format!("permutation {p}"), format!("{e}"), "child process"),
+    }
+    out.regime("call_sequences");
+}
+
 pub fn run(ctx: &Ctx) -> i32 {
     let shared = Shared::new("C07", ctx);
+    // histories: every order of the four user-option combinations, each as the first calls of a fresh process
+    let seqs: Vec<Letter> = (0..24).map(|p| Letter::one(Line::Raw(format!("#SEQ {p}")))).collect();
+    explore(ctx, "call sequences: 24 orders of the user-option combinations x (4 locations + a user file), each in a fresh process", Layered { slots: vec![seqs], bases: vec![("fresh process".to_string(), String::new())] }, C07, shared.clone());
     let bases = vec![("empty".to_string(), String::new()), ("EL grid".to_string(), "ELECTRICIDAD, RED, SUMINISTRO, A, 0.5, 2.0, 0.42\n".to_string())];
     let depth = if ctx.quick() { 4 } else { 6 };
     explore(ctx, &format!("FACT: subsets of a 27-line menu, <= {depth} lines, from {{empty, EL grid}}"), Wide { alphabet: menu(), bases, max_add: depth, repeat: false }, C07, shared.clone());
@@ -296,8 +370,8 @@ pub fn run(ctx: &Ctx) -> i32 {
         Finish {
             level: "model_checking",
             rule: "FACT model: a state is a factor file = subset of a 27-line menu (every (source, destination, step) a user can write for EL/GAS/RED1/RED2/EAMBIENTE/TERMOSOLAR/BIOMASA, incl. lines that make a carrier unusable), each line with a unique marker triple, x user RED1/RED2 given or not (4); plus the 4 locations and the shipped factor files; every accepted set is evaluated on a covering family of buildings over its carriers; non-trivial = accepted set".into(),
-            assumptions: strs(&["the first line of a file for a given (carrier, source, destination, step) is the user's value", "ambient heat and solar thermal grid factors are supplied by the method", "covering family: one building per kind of factor lookup (grid use, PV/CHP/thermal surplus to grid and to non-EPB uses, each fuel)"]),
-            required_regimes: strs(&["accepted", "rejected", "default_step_A", "default_step_B", "red_from_user", "red_from_file", "red_from_default"]),
+            assumptions: strs(&["the first line of a file for a given (carrier, source, destination, step) is the user's value", "ambient heat and solar thermal grid factors are supplied by the method", "histories: all 24 orders of the four user-option combinations, per location and for a user file, each as the first calls of a fresh process", "covering family: one building per kind of factor lookup (grid use, PV/CHP/thermal surplus to grid and to non-EPB uses, each fuel)"]),
+            required_regimes: strs(&["call_sequences", "accepted", "rejected", "default_step_A", "default_step_B", "red_from_user", "red_from_file", "red_from_default"]),
             extra: serde_json::json!({}),
         },
     )
